@@ -120,6 +120,22 @@ func newUnexpectedValueError(tok token, expected string) error {
 	return &UnexpectedValueError{newBaseError(tok.Pos), tok, expected}
 }
 
+// ExpectedError is generated when what stands at a position is not what the
+// grammar asks for there.
+type ExpectedError struct {
+	baseError
+	what string // What was expected.
+}
+
+func (e *ExpectedError) Error() string {
+	return e.sprintf(`expected %s`, e.what)
+}
+
+// newExpectedError returns a new ExpectedError.
+func newExpectedError(p Pos, what string) error {
+	return &ExpectedError{newBaseError(p), what}
+}
+
 // MultipleExtendsError describes an attempt to extend from multiple parent templates.
 type MultipleExtendsError struct {
 	baseError
